@@ -223,11 +223,17 @@ func (p *Point) AffineY() (*BaseFieldElement, error) {
 	u.Add(&p.V.Z, &p.V.Y)
 	w.Sub(&p.V.X, &p.V.T)
 	ok := wInv.Inv(&w)
+	var bfe BaseFieldElement
 	if ok == 0 {
-		return nil, curves.ErrFailed.WithMessage("cannot get affine y")
+		if p.IsOpIdentity() {
+			return nil, curves.ErrFailed.WithMessage("cannot get affine y")
+		}
+		// X == T holds only for the identity and for the point of order 2,
+		// (0, -1), which is the Montgomery point (u, v) = (0, 0).
+		bfe.V.SetZero()
+		return &bfe, nil
 	}
 
-	var bfe BaseFieldElement
 	bfe.V.Mul(&u, &wInv)
 	bfe.V.Mul(&bfe.V, &c)
 	return &bfe, nil
